@@ -74,7 +74,7 @@ CLAIMS = {
     'C15': dict(
         text='Every mutator of every backend has a postcondition on the written-flags view (write => 1, removal => 0, others unchanged, nothing marked above the high-water mark); '
              'proved by Verus on the real bodies; get_empty_leaves_indices == ascending unset positions below the mark (Kani, bounded).',
-        note='get_empty_leaves_indices iterator chain assumed in Verus and Kani-checked (Full, Optimal) / unchecked (adapter, same text). Known finding: PmTree::new zeroes the flags when it reopens an existing database (clauses reopen-*).',
+        note='get_empty_leaves_indices iterator chain assumed in Verus and Kani-checked on the compiled code for all three backends (bounded: capacity 4 / 8). Known finding: PmTree::new zeroes the flags when it reopens an existing database (clauses reopen-*).',
         design='DESIGN.md §4 C15'),
     'C19': dict(
         text='Operator helpers are loop-free / width-bounded: Kani harnesses over full-domain operands are complete proofs of circom semantics, canonical results and no panic.',
